@@ -302,6 +302,74 @@ func (p *c19) Run(tier string, seed int64, idx int) core.CaseResult {
 			}
 		}
 	}
+	// ---- trees that do not conform (a mandatory node deleted, ...): every decoder, used as it comes, refuses
+	// their encodings.  A decoding without validation comes first: what one unmarshaller was told says nothing
+	// about the next one.
+	{
+		base := c.trees[idx%len(c.trees)]
+		var paths [][]int
+		var collect func(d *dnode, p []int)
+		collect = func(d *dnode, p []int) {
+			for i, k := range d.kids {
+				pp := append(append([]int{}, p...), i)
+				paths = append(paths, pp)
+				collect(k, pp)
+			}
+		}
+		collect(base, nil)
+		tried := 0
+		for _, pi := range r.Perm(len(paths)) {
+			if tried >= 2 {
+				break
+			}
+			pth := paths[pi]
+			if len(pth) < 2 {
+				continue
+			}
+			t := base.clone()
+			cur := t
+			for _, ix := range pth[:len(pth)-1] {
+				cur = cur.kids[ix]
+			}
+			last := pth[len(pth)-1]
+			victim := cur.kids[last]
+			if victim.name == "k" || victim.name == "k2" {
+				continue
+			}
+			cur.kids = append(cur.kids[:last:last], cur.kids[last+1:]...)
+			if len(cur.kids) == 0 {
+				continue // (a node emptied of its last child or entry is no state an encoding can carry)
+			}
+			var want []refErr
+			rvalNode(root, t, nil, &want)
+			if len(want) == 0 {
+				continue
+			}
+			tried++
+			for _, enc := range []encoding.EncType{encoding.RFC7951, encoding.JSON, encoding.XML} {
+				bytes, pmsg := c19Encode(ms, enc, t)
+				if pmsg != "" {
+					continue
+				}
+				in := fmt.Sprintf("%s---- tree without %s (expected: %v), encoding %s\n%s---- encoded\n%s", schemaText, victim.name, sortErrs(want), encNames[enc], t.str(), string(bytes))
+				res.Ev("non_conforming_trees_decoded", 1)
+				tree, err, pmsg, stack := c19Decode(ms, enc, bytes, false)
+				if pmsg != "" {
+					res.Fail("C19/decode-panic/"+encNames[enc]+"/"+core.TopRepoFrame(stack), in, pmsg)
+					continue
+				}
+				_, _ = tree, err // (either outcome is fine without validation; the XML decoder counts list entries even then)
+				var derr error
+				var dtree datanode.DataNode
+				pan, msg, st := core.Guard(func() { dtree, derr = encoding.NewUnmarshaller(enc).Unmarshal(ms, bytes) })
+				if pan {
+					res.Fail("C19/decode-panic/"+encNames[enc]+"/"+core.TopRepoFrame(st), in, msg)
+				} else if derr == nil && dtree != nil {
+					res.Fail("C19/non-conforming-tree-returned/"+encNames[enc], in, "the decoder, used as it comes (validation on), returned a tree and no error")
+				}
+			}
+		}
+	}
 	// ---- a leaf-list node without values: the encodings must at least be well-formed
 	for _, t := range c.trees {
 		var ll *dnode
